@@ -108,6 +108,23 @@ class Opaque:
     __hash__ = None
 
 
+class _Chain(dict):
+    """read-only view: first mapping, then second"""
+
+    def __init__(self, a, b):
+        dict.__init__(self)
+        self._a, self._b = a, b
+
+    def __contains__(self, k):
+        return k in self._a or k in self._b
+
+    def __getitem__(self, k):
+        return self._a[k] if k in self._a else self._b[k]
+
+    def get(self, k, d=None):
+        return self[k] if k in self else d
+
+
 class Folder:
     """evaluates expressions / runs statement lists over ints, bools, None, lists and tuples; calls of `sinks` (method names on any
     receiver, e.g. add_clause) are recorded with a copy of their positional arguments instead of being executed"""
@@ -161,6 +178,23 @@ class Folder:
                 ret_y, self.yields = self.yields, saved_y
         return ret_y if is_gen else ret
 
+    def _closure(self, d):
+        """a local function used as a value: called later (possibly from another folded function) it sees the bindings of the frame that
+        defined it; assignments inside it stay local"""
+        captured = self.env
+        helpers = self.helpers
+
+        def call(*args, **kw):
+            saved_env, saved_g = self.env, self.globals
+            self.globals = _Chain(captured, saved_g)
+            saved_h = self.helpers
+            self.helpers = dict(helpers)
+            try:
+                return self.call_function(d, list(args), kw)
+            finally:
+                self.env, self.globals, self.helpers = saved_env, saved_g, saved_h
+        return call
+
     # ------------------------------------------------------------------ expressions
     def ev(self, e):
         self.fuel -= 1
@@ -173,8 +207,13 @@ class Folder:
         if isinstance(e, ast.Name):
             if e.id in self.env:
                 return self.env[e.id]
+            if e.id in self.helpers:
+                return self._closure(self.helpers[e.id])
             if e.id in self.globals:
                 return self.globals[e.id]
+            if e.id in self.module_functions:
+                d = self.module_functions[e.id]
+                return lambda *a, **k: self.call_function(d, list(a), k)
             if e.id in ("True", "False", "None"):
                 return {"True": True, "False": False, "None": None}[e.id]
             if e.id in FUNCS:
